@@ -7,6 +7,7 @@ WT=/tmp/vm/wt
 export CARGO_NET_OFFLINE=true
 mkdir -p /tmp/vm
 if [ ! -d "$WT" ]; then git -C /repo worktree add -q --detach "$WT" HEAD; cp /repo/Cargo.lock "$WT/"; fi
+git -C "$WT" checkout -q --detach "$(git -C /repo rev-parse HEAD)"
 export CARGO_TARGET_DIR=/tmp/vm/target
 for m in "$@"; do
   d="$RES/$m"
